@@ -14,6 +14,14 @@
 //!   sep <a> <b>                                       -> <key> | panic
 //!   rk <prefix bytes|N> <prefix_bit_len> <sep bytes> <sep_bit_start> <sep_bit_len>   -> <key> | panic
 //!   mc <dst> <dst_bit_start> <src> <src_bit_start> <bit_len>                         -> <dst after> | panic
+//! Command `bitops-node` (same driver mode): the real `BranchNodeBuilder` (`new` / `push` / `push_chunk`, fast path and
+//! `copy_and_shift_separators`) and `get_key` through `nomt::verif_api::branch_node`, on pages with random initial contents
+//! (the page pool hands out undefined pages): base nodes built by `push`, new nodes taking a chunk of the base's compressed
+//! separators under the same / a shorter / a longer prefix, with pushes before and after, plus malformed requests; oracle: every
+//! key read back by the real `get_key` is the key pushed, every node pointer the one given.
+//!   gk <page> <index>                                                                -> <key> | panic
+//!   bn <initial page> <n> <prefix_compressed> <prefix_len> <base page|-> <steps>     -> <page after> | panic
+//!      steps: `P:<key>:<separator_len>:<pn>` | `C:<from>:<to>:<i>=<pn>,…|-`, separated by `;`
 use crate::util::*;
 use nomt::verif_api::bit_ops as real;
 use std::panic::{catch_unwind, AssertUnwindSafe};
